@@ -81,6 +81,10 @@ var reuseTable = map[string][]reuseCase{
 		{"RNN", "hidden_size=2", []string{"2,1,2", "1,2,2", "1,2,2", "1,4", "-", "1,1,2"}, []string{"1,2,2", "1,2,2", "1,2,2", "-", "-", "1,2,2"}},
 		{"GRU", "hidden_size=2;linear_before_reset=1", []string{"2,1,2", "1,6,2", "1,6,2", "1,12", "-", "1,1,2"}, []string{"1,2,2", "1,6,2", "1,6,2"}},
 		{"LSTM", "hidden_size=2", []string{"2,1,2", "1,8,2", "1,8,2", "1,16", "-", "1,1,2", "1,1,2", "1,6"}, []string{"1,2,2", "1,8,2", "1,8,2", "-", "-", "-", "1,2,2"}},
+		// the second input set with biases / an initial state as its LAST operand (exchanged and left out in turn)
+		{"RNN", "hidden_size=2", []string{"2,1,2", "1,2,2", "1,2,2"}, []string{"1,2,2", "1,2,2", "1,2,2", "1,4"}},
+		{"GRU", "hidden_size=2", []string{"2,1,2", "1,6,2", "1,6,2"}, []string{"1,2,2", "1,6,2", "1,6,2", "1,12"}},
+		{"LSTM", "hidden_size=2", []string{"2,1,2", "1,8,2", "1,8,2"}, []string{"1,1,2", "1,8,2", "1,8,2", "1,16", "-", "1,1,2"}},
 	},
 	"C07": {
 		{"Reshape", "", []string{"2,3", "2:i64=3,-1"}, []string{"2,2,2", "2:i64=0,-1"}},
